@@ -77,10 +77,14 @@ fn gen_text(lang: &'static LangSig, r: &mut Rng, depth: usize, pattern: bool, va
     }
     let base = if parts.len() == 1 { parts.pop().unwrap() } else { format!("({})", parts.join(" ")) };
     if pattern && depth > 0 && r.chance(1, 6) {
-        // substitution form b[x := t], possibly nested
-        let x = gen_text(lang, r, 1, pattern, vars);
-        let t = gen_text(lang, r, 1, pattern, vars);
-        return format!("{base}[{x} := {t}]");
+        // substitution form b[x := t], possibly nested and possibly chained: b[x1 := t1][x2 := t2]
+        let mut out = base;
+        for _ in 0..(1 + if r.chance(1, 3) { 1 + r.below(2) } else { 0 }) {
+            let x = gen_text(lang, r, 1, pattern, vars);
+            let t = gen_text(lang, r, 1, pattern, vars);
+            out = format!("{out}[{x} := {t}]");
+        }
+        return out;
     }
     base
 }
